@@ -102,11 +102,16 @@ class EngineC18:
         if np.count_nonzero(x) < 2:
             x[tuple(0 for _ in shape)] = 1.25
             x[tuple(s - 1 for s in shape)] = 0.75
+        # admissible ranks are counted on the slices that actually carry data: an all-zero slice adds nothing to the
+        # rank of the data, and a model with more components than the data can have is not identifiable (thorough
+        # tier, seed 702 run 11378: rank-3 CP-ALS on a 3x3 matrix with a zero column; one component collapses to
+        # exactly zero or to 1e-16 depending on rounding, and CP-ALS then divides by its norm)
+        eff = [max(1, int(np.count_nonzero(np.abs(np.moveaxis(x, n, 0)).reshape(shape[n], -1).sum(axis=1)))) for n in range(N)]
         init: Dict[str, Any] = {"alg": alg, "shape": shape, "x": enc(x), "np_seed": st.u32("np"), "arpack_seed": st.u32("arpack"), "int_storage": init_int}
         if alg in ("hosvd", "tucker_als"):
             # admissible (non-degenerate) multilinear ranks: r_n <= min(size_n, prod_{m != n} r_m)
             for _ in range(50):
-                ranks = [g.randint(1, s) for s in shape]
+                ranks = [g.randint(1, e) for e in eff]
                 if all(ranks[n] <= int(np.prod([ranks[m] for m in range(N) if m != n])) for n in range(N)):
                     break
             else:
@@ -120,7 +125,7 @@ class EngineC18:
                 init["maxiters"] = sw.randint(1, 4)
                 init["init_kind"] = weighted(sw, [("random", 3), ("nvecs", 2), ("explicit", 3)])
         else:
-            maxrank = min(int(np.prod([shape[m] for m in range(N) if m != n])) for n in range(N))
+            maxrank = min(int(np.prod([eff[m] for m in range(N) if m != n])) for n in range(N))
             init["rank"] = g.randint(1, min(3, maxrank))
             if alg == "cp_als":
                 init["maxiters"] = sw.randint(1, 5)
